@@ -106,7 +106,9 @@ def next_section(name="", report=MAIN_REPORT):
             old_code = ''.join(sections[:section_index])
             # Count the line breaks before this section the way the Python parser does
             # (\n, \r\n and a lone \r each end a line; form feeds and the like do not)
-            report.submission.set_line_offset(old_code.count("\n") + old_code.count("\r") - old_code.count("\r\n"))
+            # (a \r\n pair can straddle the boundary: the separator pattern's `.` takes the \r)
+            report.submission.set_line_offset(old_code.count("\n") + old_code.count("\r")
+                                              - (old_code + new_code[:1]).count("\r\n"))
         else:
             new_code = ''.join(sections[:section_index + 1])
         report.submission.replace_main(new_code)
